@@ -1,6 +1,62 @@
 import Bifrost.Model.SigSys
 import Bifrost.Lemmas.SigClient
 import Bifrost.Lemmas.SigSessMain
-/-! Invariants of the composed signaling system (C21 end to end). -/
+import Bifrost.Lemmas.SigSysCli
+import Bifrost.Lemmas.SigSysSrv
+import Bifrost.Lemmas.SigSysInv
+import Bifrost.Lemmas.SigSysStep
+/-! Invariants of the composed signaling system (C21 end to end): the observation follows from
+the inductive invariant `SigSys.Inv` (see SigSysInv.lean / SigSysStep.lean). -/
 namespace Bifrost
+namespace SigSys
+open Bifrost.SigSysSrv Bifrost.SigSysCli
+
+/-- Component reachability: the relay and every tracker of a reachable composed state are
+reachable states of their own models, so all component invariants are available. -/
+theorem srv_reachable {s : State} (h : Reachable s) : Sig.Reachable s.srv :=
+  (inv_of_reachable h).srv.reach
+
+theorem client_reachable {s : State} (h : Reachable s) {a : Client} (ha : a ∈ s.clients) :
+    SigC.Reachable a.st :=
+  ((inv_of_reachable h).cli a ha).reach
+
+theorem sendSuccessDelivered_of_inv {s : State} (hinv : Inv s) : sendSuccessDelivered s = true := by
+  unfold sendSuccessDelivered
+  rw [List.all_eq_true]
+  intro a ha
+  rw [List.all_eq_true]
+  intro c hc
+  by_cases hr : c.result = some true
+  · have hok := hinv.cli a ha
+    have cinv := SigClient.inv_of_reachable hok.reach
+    obtain ⟨ep, hep⟩ := cinv.sa c hc hr
+    obtain ⟨b, hb, hb1, hb2, m, ep', hm, hk⟩ := hok.acked _ hep
+    have hbok := hinv.cli b hb
+    have binv := SigClient.inv_of_reachable hbok.reach
+    have hacc := binv.da m ep' hm
+    obtain ⟨a', ha', e1, e2, c', hc', hm'⟩ := hbok.acc _ hacc
+    have : a' = a := hinv.uniq a' ha' a ha (e1.trans hb2) (e2.trans hb1)
+    subst this
+    have hid : c'.id = c.id := by
+      rw [← cinv.k1 c' hc', hm']
+      exact hk
+    have : c' = c := eq_of_nodup_ids (nodup_of_reachable hok.reach) hc' hc hid
+    subst this
+    rw [Bool.or_eq_true]
+    right
+    rw [List.any_eq_true]
+    refine ⟨b, hb, ?_⟩
+    simp only [Bool.and_eq_true, decide_eq_true_eq, List.any_eq_true]
+    exact ⟨⟨hb1, hb2⟩, (m, ep'), hm, hm'.symm⟩
+  · simp [hr]
+
+theorem reachable_foldl (evs : List Ev) : ∀ s, Reachable s → Reachable (evs.foldl step s) := by
+  induction evs with
+  | nil => intro s h; exact h
+  | cons e r ih => intro s h; exact ih _ (Reachable.step e h)
+
+theorem reachable_run (evs : List Ev) : Reachable (run evs) :=
+  reachable_foldl evs _ Reachable.init
+
+end SigSys
 end Bifrost
